@@ -307,3 +307,18 @@ REGRESSION_PROVER = [
     # C17-m7 (saturating i32 cast of counts): a rule proved while a changing count is already above 2^31
     ('1RB 2RB 3LA 2RA  2LA 2LB 1LA 3RB', 3000),
 ]
+
+
+def doubler_machine(counter):
+    """4-colour machine: `counter` states write a unary counter, then three states run  a' = 2a + 1  once per counter
+    cell and the machine HALTS when the counter is empty.  The prover meets a rule with a multiplying block and a
+    shrinking one (its MultRule path, "no claim").  (after seeded changes C02-m2 / C02-m4, which turn MultRule into infrul)"""
+    m, n, o = STATES[counter], STATES[counter + 1], STATES[counter + 2]
+    rows = []
+    for i in range(counter):
+        nxt = STATES[i + 1] if i + 1 < counter else o
+        rows.append(f'1R{nxt} ... ... ...')
+    rows.append(f'3L{n} ... ... 3R{m}')
+    rows.append(f'... 2R{o} 3R{m} 3L{n}')
+    rows.append(f'0L{n} ... ... 2R{o}')
+    return '  '.join(rows)
